@@ -214,6 +214,57 @@ func c20Recheck(c *Ctx) {
 	}}
 	w.Run(core.Point{B: refusal, I: 0})
 	if busyPt == nil {
+		// the refusal may be delegated to a helper that writes the report: follow it, with the flag bound to the
+		// parameter it is passed as, and decide the re-check inside the helper
+		var helper *core.Func
+		var hcall *ast.CallExpr
+		w2 := &core.Walker{G: g, Visit: func(n ast.Node) core.Verdict {
+			hit := false
+			ownCalls(n, func(call *ast.CallExpr, _ bool) {
+				if cal := core.Callee(info, call); cal != nil && helper == nil {
+					if h := c.P.FuncOfObj(cal); h != nil && len(h.FindCalls(core.ParseRefs("cmd.restoreRejectedReloadProgress"))) > 0 {
+						helper, hcall, hit = h, call, true
+					}
+				}
+			})
+			if hit {
+				return core.Hit
+			}
+			return core.Go
+		}}
+		w2.Run(core.Point{B: refusal, I: 0})
+		if helper != nil && helper.Decl != nil {
+			var bound types.Object
+			i := 0
+			for _, fld := range helper.Decl.Type.Params.List {
+				for _, nm := range fld.Names {
+					if i < len(hcall.Args) {
+						if id, ok := ast.Unparen(hcall.Args[i]).(*ast.Ident); ok && info.ObjectOf(id) == flag {
+							bound = helper.Info().ObjectOf(nm)
+						}
+					}
+					i++
+				}
+			}
+			if bound != nil {
+				f, info, g, flag = helper, helper.Info(), helper.Graph(), bound
+				busy = nodeCalls(info, "cmd.restoreRejectedReloadProgress")
+				w3 := &core.Walker{G: g, Visit: func(n ast.Node) core.Verdict {
+					if busy(n) {
+						return core.Hit
+					}
+					return core.Go
+				}, OnHit: func(n ast.Node, _ []token.Pos) {
+					if busyPt == nil {
+						p := pointOf(g, n)
+						busyPt = &p
+					}
+				}}
+				w3.Run(g.Entry())
+			}
+		}
+	}
+	if busyPt == nil {
 		c.R.Checkf(rule, "busy-report-written-on-refusal", c.pos(f.Pos()), false, "the refusal edge does not write a busy report")
 		return
 	}
